@@ -59,6 +59,26 @@ def _inline(p):
     return pol
 
 
+def _construct_message(it, p, ci, kwargs):
+    """A message object produced by abstractly running its real constructor (validators inlined)."""
+    from ..absint import Frame
+    saved = dict(it.opts)
+    it.opts["inline"] = lambda fi, node: fi.module.name.startswith("indi.message")
+    it.opts["instantiate"] = lambda c: c.module.name.startswith("indi.message")
+    it.opts["call_may_raise"] = None
+    n = len(it.events)
+    try:
+        m = it.apply(Cls(ci), [], dict(kwargs), [], None, Frame(None, ci.module, {}), False)
+    finally:
+        it.opts.clear()
+        it.opts.update(saved)
+    del it.events[n:]
+    if not isinstance(m, Obj):
+        raise Undecided(f"construction of {ci.name} did not yield an abstract object")
+    m.label = "newVector"
+    return m
+
+
 def rule_escape(ctx):
     p = ctx.p
     drv_cls = p.cls("indi.device.driver.Driver")
@@ -77,7 +97,7 @@ def rule_escape(ctx):
     pol = _inline(p)
     for target in ("V1", "V2", "V3", "V4", "V22", "NOPE"):
         for mk in KINDS:
-            variants = [(ch, "opaque") for ch in lists_for[mk]] + [(ch, "none") for ch in lists_for[mk] if 0 < len(ch) <= 2]
+            variants = [(ch, "opaque") for ch in lists_for[mk]] + [(ch, "none") for ch in lists_for[mk] if 0 < len(ch) <= 2] + [([], "ctor")]
             for children, valmode in variants:
                 n += 1
 
@@ -92,12 +112,17 @@ def rule_escape(ctx):
                             attrs["size"] = Term("param", f"size{i}", pytype="str")
                             attrs["format"] = Term("param", f"format{i}", pytype="str")
                         kids.append(Obj(parts[mk], attrs, label=f"child{i}:{c}"))
-                    msg = Obj(news[mk], {"device": Const("DEVA"), "name": Const(target), "children": Lst(kids), "timestamp": Const(None), "__closed__": Const(True)}, label="newVector")
+                    if valmode == "ctor":
+                        # a childless element (<newTextVector device=.. name=../>): the parser passes no children at all,
+                        # what the message then holds is whatever its real constructor makes of that
+                        msg = _construct_message(it, p, news[mk], {"device": Const("DEVA"), "name": Const(target)})
+                    else:
+                        msg = Obj(news[mk], {"device": Const("DEVA"), "name": Const(target), "children": Lst(kids), "timestamp": Const(None), "__closed__": Const(True)}, label="newVector")
                     return it.run_function(Fn(f, drv), [msg], {})
 
                 paths = explore(p, run, {"inline": pol, "assert_forks": True, "call_may_raise": _raiser, "max_depth": 10, "max_for": 1}, max_paths=60000)
                 ctx.paths_enumerated += len(paths)
-                row = f"new{mk}Vector -> {target} ({kind_of.get(target, 'unknown property')}) children={children}" + (" with empty bodies (value=None)" if valmode == "none" else "")
+                row = f"new{mk}Vector -> {target} ({kind_of.get(target, 'unknown property')}) children={children}" + (" with empty bodies (value=None)" if valmode == "none" else "") + (" (childless element, built by the message constructor)" if valmode == "ctor" else "")
                 for pa in paths:
                     if pa.outcome == "raise":
                         raises = [e for e in pa.events if e.kind == "raise"]
@@ -198,7 +223,13 @@ def rule_enable(ctx):
 # kind/name dispatch table
 IMPORTS = [('C06', 'C06.KEY'), ('C11', 'C11.RECOVER'), ('C04', 'C04.ACC'), ('C04', 'C04.DEV'), ('C02', 'C02.DISCARD'), ('C02', 'C02.CONSUME'), ('C11', 'C11.NOGROW')]
 
+def rule_regex(ctx):
+    from . import bufferrules as B
+    B.check_regex(ctx, "C12.REGEX", ("indi.device", "indi.routing", "indi.message"), "the thread that serves the connection is stuck on one client value and stops serving")
+
+
 RULES = [
+    ("C12.REGEX", rule_regex, "no regex applied to client-supplied values has an unbounded repeat with an ambiguous iteration"),
     ("C12.ESCAPE", rule_escape, "fault catalogue x may-raise primitives: nothing escapes Driver.message_from_client; only validly named elements change"),
     ("C12.INLOOP", rule_inloop, "server transports contain router errors per message, not around the loop"),
     ("C12.ENABLE", rule_enable, "enableBLOB from unregistered senders is ignored"),
